@@ -535,6 +535,12 @@ def rule_l_recheck_nested(la, res, site, rule="L-RECHECK"):
         stores = [(a, held) for a, held in accs if a.mode == "w" and any(covers(a.key, m) for m in missing)]
         if not stores or la.is_ctor_dtor(g, site["lock"]):
             continue
+        # operations of the waiter's own role (the one writer of a channel: whoever stores head / mapped) cannot
+        # run while that writer sleeps in f
+        role = {k for (k, m) in la.effects(f) if m == "w" and k in (("channel", "head"), ("channel", "mapped"))}
+        if role and any(k in role and m == "w" for (k, m) in la.effects(g)) and \
+                all(a.key in role or a.key == ("channel", "high") or a.key == ("channel", "cycle") or str(a.key[1]).startswith("holds") for a, h in stores):
+            continue
         # registering a reader can only shrink the free space: it cannot end the writer's wait
         if any(k == ("channel", "holds.n") and m == "w" for (k, m) in la.effects(g)) and \
                 not any(k == ("channel", "head") and m == "w" for (k, m) in la.effects(g)):
